@@ -31,17 +31,23 @@ Qed.
 (* right-to-left, depth 1: the visits of operations 3 and 2 are accepted, yet the circuit
    committed has lost operations 3 and 1 -- operation 2 (visited, "removed") survives *)
 Lemma treescan_right_wrong_operation :
-  treescan cost12 5 1 w4 (rev (iter_fwd w4)) = Ok (mkSt [[(0, [0])]; [(2, [0])]] 2 4).
+  treescan cost12 5 true 1 w4 (rev (iter_fwd w4)) = Ok (mkSt [[(0, [0])]; [(2, [0])]] 2 4).
 Proof. vm_compute. reflexivity. Qed.
 (* with every candidate accepted the third pop is out of range: IndexError *)
-Lemma treescan_right_raises : treescan cost0 5 1 w3 (rev (iter_fwd w3)) = IndexErr.
+Lemma treescan_right_raises : treescan cost0 5 true 1 w3 (rev (iter_fwd w3)) = IndexErr.
 Proof. vm_compute. reflexivity. Qed.
 (* the plain scan handles the same inputs: exactly the visited operations go *)
 Lemma scan_right_same_inputs :
   scan cost12 5 false (fun _ => true) w4 (rev (iter_fwd w4)) = Ok (mkSt [[(0, [0])]; [(1, [0])]] 2 4)
   /\ scan cost0 5 false (fun _ => true) w3 (rev (iter_fwd w3)) = Ok (mkSt [] 3 3).
 Proof. split; vm_compute; reflexivity. Qed.
+(* with the guard of fixes/C10.T1.patch (no compensation when scanning from the right) the
+   same runs remove exactly the visited operations *)
+Lemma treescan_right_guarded :
+  treescan cost12 5 false 1 w4 (rev (iter_fwd w4)) = Ok (mkSt [[(0, [0])]; [(1, [0])]] 2 4)
+  /\ treescan cost0 5 false 1 w3 (rev (iter_fwd w3)) = Ok (mkSt [] 3 3).
+Proof. split; vm_compute; reflexivity. Qed.
 (* and the tree scan from the left is fine on them *)
 Lemma treescan_left_same_inputs :
-  treescan cost12 5 1 w4 (iter_fwd w4) = Ok (mkSt [[(2, [0])]; [(3, [0])]] 2 4).
+  treescan cost12 5 true 1 w4 (iter_fwd w4) = Ok (mkSt [[(2, [0])]; [(3, [0])]] 2 4).
 Proof. vm_compute. reflexivity. Qed.
